@@ -36,6 +36,25 @@ theorem binLevel_leftAssoc_partial {recog lower Opnd IsOp FollowT FollowL}
       = some (⟨mk (b ++ (foldChain a rest).enc), ts⟩, (2 * rest.length : Int)) :=
   binLevel_top hs rest hall a ha fuel hf b ts hts
 
+/-- **The multiplicative layer over atoms, on the real model functions** (`mulExpr` = `runLevel recogMul (unaryExpr …)`,
+through `UnaryExpr → UnionExpr → PathExpr → PrimaryExpr` for the operands): for atoms (number / string literals, variable
+references), operators `*` `div` `mod`, chains of any length, any map prefix and any continuation that does not start
+with `*`, `div`, `mod` or `|`: the op map grows by exactly the encoding of the left-nested tree.  This discharges the
+`LevelSpec` hypotheses of `binLevel_leftAssoc_partial` for one concrete layer; the other three layers, unary minus, groups
+and `and`/`or` (the whole-tree `compile_encodes` over `E.WF`) are still open. -/
+theorem mulExpr_atoms_leftAssoc_partial (expr : St → Option St) (a : E) (ha : IsAtom a) (rest : Chain)
+    (hall : ∀ x ∈ rest, IsMulOp x.1 ∧ IsAtom x.2.2) (b : List Int) (ts : List Tok) (hts : FollowMul ts) :
+    mulExpr expr ⟨mk b, a.toks ++ (chainToks rest ++ ts)⟩ = some ⟨mk (b ++ (foldChain a rest).enc), ts⟩ :=
+  mulExpr_atoms expr a ha rest hall b ts hts
+
+/-- non-vacuity: `1 * $x div 'a' mod 2` followed by `)` -/
+example : IsAtom (.num 0 0) ∧ (∀ x ∈ ([(.mult, 0, .var 3 4), (.div, 5, .lit 6), (.mod, 7, .num 1 8)] : Chain), IsMulOp x.1 ∧ IsAtom x.2.2) ∧
+    FollowMul [.rpar] := by
+  refine ⟨trivial, ?_, by simp [FollowMul]⟩
+  intro x hx
+  simp only [List.mem_cons, List.not_mem_nil, or_false] at hx
+  rcases hx with h | h | h <;> subst h <;> exact ⟨trivial, trivial⟩
+
 /-- the encoding of a left-nested chain: the operator headers outermost first, then the operands in
 source order — what `binLevel` builds by inserting every header at the same saved position. -/
 theorem enc_leftNested (a : E) (rest : Chain) :
